@@ -442,6 +442,33 @@ static void post_emulate (int n)
   check_codemem (1);
 }
 
+/* --- S6: the wrappers orcc generates, first call from several threads at once.  The check generates them from the tree's
+ * own orcc (xsched_gen_c.c: --compat 0.4.10 --no-backup, the OrcProgram-based lazy initialisation; xsched_gen_d.c: default
+ * options, the OrcCode-based one) and they are compiled into this engine with the scheduling hooks. --- */
+#ifdef XS_GEN
+#define ORC_RESTRICT
+#include "xsched_gen_c.c"
+#include "xsched_gen_d.c"
+static int s6_ok[MAXT];
+static void body_generated (int id)
+{
+  orc_int16 s1[24], s2[24], d[24];
+  int i, ok = 1, w;
+  for (w = 0; w < 2; w++) {
+    for (i = 0; i < 24; i++) { s1[i] = (orc_int16) (i * 37 + id * 1000 + w); s2[i] = (orc_int16) (i * 101 - 7); d[i] = 0x5a5a; }
+    if ((id + w) % 2 == 0) gen_c_addw (d, s1, s2, 21); else gen_d_addw (d, s1, s2, 21);
+    for (i = 0; i < 21; i++) if (d[i] != (orc_int16) (s1[i] + s2[i])) ok = 0;
+    for (i = 21; i < 24; i++) if (d[i] != 0x5a5a) ok = 0;
+  }
+  s6_ok[id] = ok;
+}
+static void post_generated (int n)
+{
+  int i;
+  for (i = 0; i < n; i++) if (!s6_ok[i]) fail ("thread %d: a generated wrapper (first call) gave a wrong result", i);
+}
+#endif
+
 typedef struct { const char *name; Body body; void (*post) (int); int pre_init; } Scenario;
 static const Scenario scenarios[] = {
   { "init", body_init, post_init, 0 },
@@ -449,8 +476,11 @@ static const Scenario scenarios[] = {
   { "codemem", body_codemem, post_codemem, 1 },
   { "run", body_run, post_run, 1 },
   { "emulate", body_emulate, post_emulate, 1 },
+#ifdef XS_GEN
+  { "generated", body_generated, post_generated, 1 },
+#endif
 };
-#define NSCEN 5
+#define NSCEN ((int) (sizeof (scenarios) / sizeof (scenarios[0])))
 
 static void finish_report (const char *extra, int isbad)
 {
